@@ -49,8 +49,37 @@ def run(chk):
                         m = d[:pos] + v.to_bytes(width, 'big') + d[pos + width:]
                         q = [x for qq in quads[:k] for x in qq] + quads[k][:3] + ['=' + m.hex()]
                         lines.append('alloc flow none ' + ' '.join(q))
-    if chk.tier == 'quick' and len(lines) > 9000:
-        lines = rng.sample(lines, 9000)
+    # header sweep, never subsampled: in EVERY datagram of every base history, each aligned word of the
+    # first 40 bytes (version, record / sample / set counts, lengths of the first set or sample) takes
+    # every hostile value
+    head = []
+    for h in base:
+        f = h.split(' ')
+        quads = [f[i:i + 4] for i in range(0, len(f) - 3, 4)]
+        for k in range(len(quads)):
+            d = bytes.fromhex(quads[k][3][1:])
+            for pos in range(0, min(40, len(d) - 1), 2):
+                for v in HOSTILE:
+                    for width in (2, 4):
+                        if pos + width > len(d) or (width == 4 and pos % 4) or v >= 2 ** (8 * width):
+                            continue
+                        m = d[:pos] + v.to_bytes(width, 'big') + d[pos + width:]
+                        q = [x for qq in quads[:k] for x in qq] + quads[k][:3] + ['=' + m.hex()]
+                        head.append('alloc flow none ' + ' '.join(q))
+    if chk.tier == 'quick' and len(head) > 6000:
+        # keep every (protocol, position, value) combination: sample per datagram, not per line
+        keep, seen = [], {}
+        for l in head:
+            dg = l.rsplit(' ', 1)[1]
+            key = (dg[1:5], )          # protocol/version half-word
+            seen.setdefault(key, []).append(l)
+        for key, ls in seen.items():
+            keep += ls if len(ls) <= 2500 else rng.sample(ls, 2500)
+        head = keep
+    if chk.tier == 'quick' and len(lines) > 6000:
+        lines = rng.sample(lines, 6000)
+    chk.count('header sweep', len(head))
+    lines = head + lines
     impl = impl_run(chk.harness, lines, timeout=120.0)
     chk.evals += len(lines)
     chk.count('count-field sweep', len(lines))
